@@ -93,7 +93,7 @@ package keeper
 // bidder gets the bid back and the lot returns to the collector; without a bid the lot returns to the collector.
 // In every case exactly the lot and the standing bid leave auction custody.
 //@ func (k Keeper) closeSurplusAuction
-//@   property C11
+//@   property C11, C13
 //@   let A = surplusAuction
 //@   let am = modaddr("auctionV1")
 //@   let cm = modaddr("collectorV1")
@@ -108,12 +108,16 @@ package keeper
 //@   ensures #c11-winner-receives-lot: result == nil && has && !statusEsm ==> bal(w, ld) == old(bal(w, ld)) + A.SellToken.Amount
 //@   ensures #c11-lot-leaves-custody: result == nil ==> bal(am, ld) == old(bal(am, ld)) - A.SellToken.Amount
 //@   ensures #c11-esm-refunds-bidder: result == nil && has && statusEsm ==> bal(w, bd) == old(bal(w, bd)) + A.Bid.Amount && bal(cm, ld) == old(bal(cm, ld)) + A.SellToken.Amount
+//@   let nfOut0 = ite(K("collector").GetNetFeeCollectedData(ctx, surplusAuction.AppId, surplusAuction.AssetOutId).1, K("collector").GetNetFeeCollectedData(ctx, surplusAuction.AppId, surplusAuction.AssetOutId).0.NetFeesCollected, 0)
+//@   letpost nfOut1 = ite(K("collector").GetNetFeeCollectedData(ctx, surplusAuction.AppId, surplusAuction.AssetOutId).1, K("collector").GetNetFeeCollectedData(ctx, surplusAuction.AppId, surplusAuction.AssetOutId).0.NetFeesCollected, 0)
+//@   ensures [C13] #c13-returned-lot-is-booked-under-its-own-asset: result == nil && (statusEsm || !has) ==> bal(cm, ld) == old(bal(cm, ld)) + A.SellToken.Amount && nfOut1 == nfOut0 + A.SellToken.Amount
+//@   ensures [C13] #c13-no-other-book-moves: result == nil ==> forall a, b :: (a != surplusAuction.AppId || b != surplusAuction.AssetOutId) ==> K("collector").GetNetFeeCollectedData(ctx, a, b) == old(K("collector").GetNetFeeCollectedData(ctx, a, b))
 
 // First-generation debt auction close (C11): with a standing bid and no emergency shutdown the standing bidder receives
 // exactly the newly minted lot it asked for and the payment held in custody goes to the collector; under emergency shutdown
 // the standing bidder gets the payment back; custody of the payment denom is emptied of this auction's payment either way.
 //@ func (k Keeper) closeDebtAuction
-//@   property C11
+//@   property C11, C13
 //@   let A = debtAuction
 //@   let am = modaddr("auctionV1")
 //@   let cm = modaddr("collectorV1")
@@ -126,6 +130,10 @@ package keeper
 //@   requires #fee-book: forall a, b :: ite(K("collector").GetNetFeeCollectedData(ctx, a, b).1, K("collector").GetNetFeeCollectedData(ctx, a, b).0.NetFeesCollected, 0) >= 0
 //@   ensures #c11-winner-receives-minted-lot: result == nil && had && !statusEsm && A.CurrentBidAmount.Amount > 0 ==> bal(w, md) == old(bal(w, md)) + A.CurrentBidAmount.Amount && supply(md) == old(supply(md)) + A.CurrentBidAmount.Amount
 //@   ensures #c11-payment-to-collector: result == nil && had && !statusEsm ==> bal(am, pd) == old(bal(am, pd)) - A.ExpectedUserToken.Amount && bal(cm, pd) == old(bal(cm, pd)) + A.ExpectedUserToken.Amount
+//@   let nfIn0 = ite(K("collector").GetNetFeeCollectedData(ctx, debtAuction.AppId, debtAuction.AssetInId).1, K("collector").GetNetFeeCollectedData(ctx, debtAuction.AppId, debtAuction.AssetInId).0.NetFeesCollected, 0)
+//@   letpost nfIn1 = ite(K("collector").GetNetFeeCollectedData(ctx, debtAuction.AppId, debtAuction.AssetInId).1, K("collector").GetNetFeeCollectedData(ctx, debtAuction.AppId, debtAuction.AssetInId).0.NetFeesCollected, 0)
+//@   ensures [C13] #c13-payment-is-booked-under-its-own-asset: result == nil && had && !statusEsm ==> nfIn1 == nfIn0 + A.ExpectedUserToken.Amount
+//@   ensures [C13] #c13-no-other-book-moves: result == nil ==> forall a, b :: (a != debtAuction.AppId || b != debtAuction.AssetInId) ==> K("collector").GetNetFeeCollectedData(ctx, a, b) == old(K("collector").GetNetFeeCollectedData(ctx, a, b))
 
 // Begin-block activators of first-generation surplus and debt auctions (C14): the circuit-breaker flag and the emergency
 // status handed in by the caller are the ones stored for the row's own app at the time of the call (checked at every call
